@@ -12,10 +12,7 @@ PBT_PROPERTY(merge) {
     cfg.desc = src.boolean();
     const bool st = c05::entry_stable(cfg.entry);
     switch (type) {
-    case 0:
-        if (cfg.desc) st ? c05::run_int_greater_s(src, cfg) : c05::run_int_greater_u(src, cfg);
-        else st ? c05::run_int_less_s(src, cfg) : c05::run_int_less_u(src, cfg);
-        break;
+    case 0: st ? c05::run_int_s(src, cfg) : c05::run_int_u(src, cfg); break;
     case 1: st ? c05::run_rec8_s(src, cfg) : c05::run_rec8_u(src, cfg); break;
     default: st ? c05::run_rec40_s(src, cfg) : c05::run_rec40_u(src, cfg); break;
     }
